@@ -2,7 +2,7 @@
 D1 at most one bin lock / D2 root lock innermost and paired / D3 park protocol / D4 initialisation ticket released / D5 = L4."""
 from .affine import evaluator, Aff, TOP, const_val
 from .analysis import flow, regions, cond_of, dominated_by_edge, reach, after, entry, Point, dominates, return_points, lock_calls, held_regions_at
-from .anchors import callee_str, is_std_atomic, is_reclaim_atomic, receiver_field
+from .anchors import callee_str, is_std_atomic, is_reclaim_atomic, receiver_field, is_link_load
 from .callgraph import callgraph
 from .facts import op_root, op_local, strip_generics
 from .protocol import bin_lock_region, user_code_call
@@ -396,6 +396,17 @@ def rule_tree_write_lock(ctx, facts, rule="L11"):
                 for f1, f2 in ((fa, fb), (fb, fa)):
                     if f1 is not TOP and f2 is not TOP and exp is not TOP and f1 == exp and f2.is_const() and f2.c in (0, WAITER):
                         eq_edges.append((blk, cd["true"] if cd["op"] == "Eq" else cd["false"]))
+            # ... or as a match on the word itself: `matches!(s, 0 | WAITER)`
+            for blk in range(len(b.blocks)):
+                t = b.term(blk)
+                if t["k"] != "switch":
+                    continue
+                fo = ev.operand(t["on"])
+                if fo is TOP or exp is TOP or fo != exp:
+                    continue
+                for v, tb in t["targets"]:
+                    if int(v) in (0, WAITER) and len([1 for v2, tb2 in t["targets"] if tb2 == tb and int(v2) not in (0, WAITER)]) == 0 and tb != t["otherwise"]:
+                        eq_edges.append((blk, tb))
             if not free and eq_edges and dominated_by_edge(b, x.point, eq_edges):
                 free = True
             ctx.inst(rule, b, "write lock taken only when nobody holds it", x.span, free,
@@ -526,7 +537,49 @@ def rule_d6(ctx, facts, rule="D6"):
         ctx.fail_closed("%s: expected the three tree-descent call sites (TreeBin::find, compute_if_present, replace_node), found %d" % (rule, n))
 
 
+def rule_d11(ctx, facts):
+    """help_transfer hands back the successor table: once the table it was given has a non-null `next_table`, every return yields that
+    successor -- not the table it was given and not a fresh read of the map's table pointer, which is still the old table while the
+    resize is in flight (the caller would re-read the same forwarding marker for as long as the resize lasts, for ever if it never
+    finishes)"""
+    b = facts.body("HashMap::help_transfer")
+    fl = flow(b)
+    nts = [c for c in b.calls if is_link_load(c) == "next_table" and not b.is_cleanup(c.b)]
+    if not nts:
+        ctx.fail_closed("D11: help_transfer does not read the successor of the table it is given")
+        return
+    n = 0
+    for nt in nts:
+        edges = []
+        for blk in range(len(b.blocks)):
+            cd = cond_of(b, blk)
+            if cd and cd["kind"] == "is_null" and cd.get("arg") is not None and fl.roots(cd["arg"], through_agg=False)[0] == {("call", nt.b)}:
+                edges.append((blk, cd["false"]))
+        if not edges:
+            continue
+        for pt, kind, data in b.defs.get(0, []):
+            p0 = Point(pt[0], pt[1])
+            if kind not in ("assign", "call") or not dominated_by_edge(b, p0, edges):
+                continue
+            n += 1
+            if kind == "call":
+                roots = {("call", pt[0])}
+            else:
+                src = op_root(data["rv"].get("use") or {}) if "use" in data["rv"] else None
+                roots = fl.roots_at(src, p0) if src is not None else {("other", p0)}
+            others = [r for r in roots if r != ("call", nt.b)]
+            ctx.inst("D11", b, "returns the successor table", b.span_at(p0), not others,
+                     "the value returned is the next_table read at %s" % nt.span if not others else
+                     "with a successor table present, help_transfer can return %s instead of the successor read at %s: a writer that met a "
+                     "forwarding marker retries in the same table and meets the same marker again, for as long as the resize lasts" % (
+                         ", ".join(sorted("a value from %s" % (callee_str(b.call_at(r[1])) if r[0] == "call" and b.call_at(r[1]) else str(r)) for r in others)), nt.span))
+    if n < 1:
+        ctx.fail_closed("D11: no return of help_transfer lies behind the non-null test of the successor table")
+
+
 def run(ctx, facts):
+    ctx.rule("D11", "help_transfer returns the successor of the table it was given whenever there is one", floor=1)
+    rule_d11(ctx, facts)
     ctx.rule("D6", "readers descend a tree bin only under the read lock (won READER CAS with no WRITER/WAITER), released on every path; writers under the bin lock", floor=3)
     rule_d6(ctx, facts)
     ctx.rule("D1", "no bin-lock acquisition (direct or through callees) while a bin lock is held", floor=11)
